@@ -135,6 +135,7 @@ def run(ctx):
     ctx.traces_validated = nA + nB
     ctx.evaluations = nA + nB
     ctx.cov["class_cases"] = nA
+    ctx.cov["sessions"] = "every class case again twice in shuffled order in one process with out-of-range calls (negative, 2^256, 2^300) interleaved, and once from 8 goroutines concurrently"
     ctx.cov["code_documents"] = nB
     ctx.cov["code_documents_with_short_root"] = short
     ctx.cov["gen_test_params_dims"] = len(dims)
